@@ -6,6 +6,15 @@ from .c04 import next_item, tfield
 CORE = "frost_core::"
 
 
+def _is_path(t, base, path):
+    """t == base.path[0].path[1]... (owner ADT names ignored)"""
+    for nm in reversed(path):
+        if not (isinstance(t, tuple) and t and t[0] == "field" and t[3] == nm):
+            return False
+        t = t[1]
+    return t == base
+
+
 def run(ctx):
     ctx.decided = ("the empty batch is refused; one fresh blinder is drawn inside the per-item loop from the caller's "
                    "rng; the loop covers every queued item and pushes the item's three terms (blinder*z into the "
@@ -24,97 +33,49 @@ def run(ctx):
         refusal(ctx, f, "SEP", "G41:empty-batch-refused",
                 [("n==0", cmp_fact("eq", length(sigs), const(0), True)),
                  ("is_empty", cmp_fact("empty", sigs, None, True))], ok_sinks(f))
-        lr = reductions(ctx, f.key, adaptors={}, min_loops=1)
-        item = next_item(lambda t: t == ("call", t[1], t[2], t[3], t[4]) and is_call(t, name="iter") and sigs(t[2][0])
-                         if isinstance(t, tuple) and len(t) == 5 else False)
-        if lr:
-            lp = lr[0]
-            ctx.check(lp["iter_term"] is not None and mentions(lp["iter_term"], sigs) and
-                      not mentions(lp["iter_term"], lambda s: is_call(s) and s[1].rsplit("::", 1)[-1] in TRUNCATING),
-                      "RED", f.key, "loop-over-every-item", "the batch loop does not run over all queued items", f.loc)
-            # blinder: drawn inside the loop body, from the rng parameter
-            draws = [(bb, t) for (bb, t, ci) in f.calls() if ci and ci.get("name") == "random"
-                     and (ci.get("trait") or "").endswith("Field")]
-            good = len(draws) == 1 and draws[0][0] in lp["body"] and mentions(v.call_args(draws[0][0])[0], arg(2))
-            ctx.check(good, "DRAW", f.key, "blinder-per-item",
-                      "the blinding factor must be drawn from the caller's rng once per item, inside the loop (a "
-                      "hoisted or shared blinder lets crafted invalid items cancel)", f.loc)
-            if good:
-                blind = lambda t: is_call(t, name="random") and t[3] == (f.key, draws[0][0])
-                names = f.var_names()
-                # pushes in the loop
-                pushes = {}
-                for (bb, t, ci) in f.calls():
-                    if ci and ci.get("name") == "push" and bb in lp["body"]:
-                        a = v.call_args(bb)
-                        p = t["args"][0].get("move") or t["args"][0].get("copy")
-                        root = [r for r in f.ref_roots().get(p["l"], ()) if not f.local_ty(r).startswith("&")]
-                        pushes[names.get(root[0], root[0]) if root else bb] = a[1]
-                it = lambda fieldpath: (lambda t: True)
-                have = sorted(str(k) for k in pushes)
-                def is_item_field(t, *path):
-                    for nm in reversed(path):
-                        if not (t[0] == "field" and t[3] == nm):
-                            return False
-                        t = t[1]
-                    return t[0] == "some" and is_call(t[1], name="next")
-                rc = [k for k, val in pushes.items() if blind(val)]
-                rs = [k for k, val in pushes.items() if is_item_field(val, "sig", "R")]
-                vkc = [k for k, val in pushes.items() if mentions(val, lambda s: is_call(s, name="mul") and blind(s[2][0]) and is_item_field(strip_newtype_fields(s[2][1]), "c"))
-                       or mentions(val, lambda s: is_call(s, name="mul") and blind(s[2][0]) and is_item_field(s[2][1], "c", "0"))]
-                vks = [k for k, val in pushes.items() if is_item_field(strip_newtype_fields(val), "vk") or
-                       (is_call(val, name="to_element") and is_item_field(val[2][0], "vk"))]
-                good = len(pushes) == 4 and len(rc) == 1 and len(rs) == 1 and len(vkc) == 1 and len(vks) == 1
-                ctx.check(good, "AGREE", f.key, "per-item-terms",
-                          "each item must contribute (blinder -> R coefficient, R), (blinder*c -> key coefficient, key): "
-                          "found pushes %s" % {str(k): fmt(x)[:80] for k, x in pushes.items()}, f.loc)
-                # generator coefficient: acc = acc - blinder*z
-                acc_ok = False
-                for (bb, t, ci) in f.calls():
-                    if ci and ci.get("name") == "sub" and bb in lp["body"]:
-                        a = v.call_args(bb)
-                        if is_call(a[1], name="mul") and blind(a[1][2][0]) and is_item_field(a[1][2][1], "sig", "z"):
-                            acc_ok = a[0][0] in ("phi", "loopvar")
-                ctx.check(acc_ok, "AGREE", f.key, "generator-coefficient==-(sum blinder*z)",
-                          "the generator's coefficient must accumulate minus blinder*z for every item", f.loc)
-                # chained in the same order
-                if good:
-                    msm = [(bb, v.call_args(bb)) for (bb, t, ci) in f.calls() if ci and ci.get("name") == "vartime_multiscalar_mul"]
-                    okc = len(msm) == 1
-                    if okc:
-                        sc, pt = msm[0][1]
-                        def chain_order(t):
-                            out = []
-                            def walk(x):
-                                if is_call(x, name="chain"):
-                                    walk(x[2][0]); walk(x[2][1])
-                                else:
-                                    out.append(x)
-                            walk(t)
-                            return out
-                        so, po = chain_order(sc), chain_order(pt)
-                        def which(x):
-                            for nm in (rc[0], rs[0], vkc[0], vks[0]):
-                                pass
-                            return None
-                        def root_name(x):
-                            # slice::iter(Vec{push(..)}) -> identify by the pushed value
-                            for s in subterms(x):
-                                if s[0] == "mut":
-                                    for o in s[2]:
-                                        if o[1] == "push":
-                                            for k, val in pushes.items():
-                                                if val == o[2][0]:
-                                                    return k
-                            return None
-                        sn, pn = [root_name(x) for x in so], [root_name(x) for x in po]
-                        okc = (len(so) == 3 and len(po) == 3 and sn[1:] == [vkc[0], rc[0]] and pn[1:] == [vks[0], rs[0]]
-                               or len(so) == 3 and len(po) == 3 and sn[1:] == [rc[0], vkc[0]] and pn[1:] == [rs[0], vks[0]])
-                        okc = okc and mentions(so[0], lambda s: s[0] == "phi") and mentions(po[0], lambda s: is_call(s, name="generator"))
-                    ctx.check(okc, "AGREE", f.key, "coefficients-and-points-chained-in-the-same-order",
-                              "scalars and points handed to the multiscalar multiplication are not chained as "
-                              "(generator coeff, key coeffs, R coeffs) / (generator, keys, Rs) in matching order",
-                              f.loc)
+        reductions(ctx, f.key, adaptors={}, min_loops=1)
+        # the multiscalar multiplication's two inputs as ordered components (engine D views): one-element and per-item parts
+        msm = [(bb, v.call_args(bb)) for (bb, t, ci) in f.calls() if ci and ci.get("name") == "vartime_multiscalar_mul"]
+        draws = [(bb, t) for (bb, t, ci) in f.calls() if ci and ci.get("name") == "random" and (ci.get("trait") or "").endswith("Field")]
+        lps = [lp for lp in loop_report(P, f) if draws and draws[0][0] in lp["body"]]
+        good = len(draws) == 1 and len(lps) == 1 and mentions(v.call_args(draws[0][0])[0], arg(2)) and \
+            lps[0]["iter_term"] is not None and sigs(strip_iter_calls(lps[0]["iter_term"])) and \
+            not any(c == "break" for _, c in lps[0]["exits"])
+        ctx.check(good, "DRAW", f.key, "blinder-per-item",
+                  "the blinding factor must be drawn from the caller's rng once per item, inside a loop over every queued item (a "
+                  "hoisted or shared blinder lets crafted invalid items cancel)", f.loc)
+        ctx.check(good, "RED", f.key, "loop-over-every-item", "the batch loop does not run over all queued items", f.loc)
+        if good and len(msm) == 1:
+            blind = lambda t: is_call(t, name="random") and t[3] == (f.key, draws[0][0])
+            sc, pt = (seq_components(P, f, v, a) for a in msm[0][1])
+            each = lambda c, pred: c[0] == "each" and sigs(c[1]) and pred(c[2])
+            itf = lambda *path: (lambda t: _is_path(strip_newtype_fields(t), ITEM, path) or _is_path(t, ITEM, path))
+            r_coef = lambda c: each(c, blind)
+            vk_coef = lambda c: each(c, lambda x: mentions(x, lambda s: is_call(s, name="mul") and len(s[2]) == 2 and (
+                (blind(s[2][0]) and itf("c")(s[2][1])) or (blind(s[2][1]) and itf("c")(s[2][0])))) and
+                not mentions(x, lambda s: s[0] == "field" and s[3] in ("z", "R", "vk")))
+            r_pt = lambda c: each(c, itf("sig", "R"))
+            vk_pt = lambda c: each(c, lambda x: itf("vk")(x) or (is_call(x, name="to_element") and itf("vk")(x[2][0])))
+            shape = len(sc) == 3 and len(pt) == 3 and sc[0][0] == "one" and pt[0][0] == "one"
+            good2 = shape and ((vk_coef(sc[1]) and r_coef(sc[2]) and vk_pt(pt[1]) and r_pt(pt[2])) or
+                               (r_coef(sc[1]) and vk_coef(sc[2]) and r_pt(pt[1]) and vk_pt(pt[2])))
+            ctx.check(good2, "AGREE", f.key, "per-item-terms",
+                      "each item must contribute (blinder -> R coefficient, R), (blinder*c -> key coefficient, key), in matching "
+                      "order on both sides of the multiscalar multiplication: scalars %s, points %s"
+                      % ([fmt(c[-1])[:60] for c in sc], [fmt(c[-1])[:60] for c in pt]), f.loc)
+            ctx.check(shape and is_call(pt[0][1], name="generator"), "AGREE", f.key, "coefficients-and-points-chained-in-the-same-order",
+                      "the first point must be the generator, paired with the accumulated generator coefficient", f.loc)
+            # generator coefficient: acc = acc - blinder*z over every item, from zero
+            acc_ok = False
+            if shape:
+                r = reduction_of(P, f, v, sc[0][1])
+                if r and sigs(strip_iter_calls(r["source"])) and len(r["init"]) == 1 and is_call(r["init"][0], name="zero") and \
+                        len(r["steps"]) == 1 and not r["after"] and not r["skippable"] and not r["early_exit"]:
+                    st = r["steps"][0]
+                    acc_ok = is_call(st, name="sub") and st[2][0] == ACC and is_call(st[2][1], name="mul") and len(st[2][1][2]) == 2 and (
+                        (blind(st[2][1][2][0]) and itf("sig", "z")(st[2][1][2][1])) or (blind(st[2][1][2][1]) and itf("sig", "z")(st[2][1][2][0])))
+            ctx.check(acc_ok, "AGREE", f.key, "generator-coefficient==-(sum blinder*z)",
+                      "the generator's coefficient must accumulate minus blinder*z for every item", f.loc)
         batch_item_kernel(ctx, f, v)
         # acceptance test
         acc = cmp_fact("eq", lambda t: is_call(t, name="mul") and mentions(t[2][0], call("vartime_multiscalar_mul"))
